@@ -5,6 +5,7 @@
 -/
 import Deepali.Drv.Sample
 import Deepali.Model.FlowOps
+import Deepali.Model.Regularizers
 namespace Deepali.Drv
 open Deepali Deepali.Proto
 
@@ -114,8 +115,24 @@ def flowBch : Reader String := do
   let uvvu ← readField d size
   pure (fmtField size (bchCombine k u v vu vvu uvu uvvu))
 
+/-- `flow.normalize d ac denorm side size… count values…` (core.flow.normalize_flow / denormalize_flow on `count`
+    vectors, channels last: component `c` of every vector belongs to axis `c`, x first) -/
+def flowNormalizeH : Reader String := do
+  let d ← nat
+  let ac ← bool
+  let denorm ← bool
+  let side ← rat
+  let size ← natVec d
+  let count ← nat
+  let vals := (← listOf (count * d) rat).toArray
+  let out := (List.range count).flatMap (fun k =>
+    let v : Vec d Rat := fun c => vals[k * d + c.val]!
+    let w := if denorm then Reg.denormalizeFlow ac size side v else Reg.normalizeFlow ac size side v
+    (List.finRange d).map w)
+  pure (fmtRats out)
+
 def flowHandlers : List (String × Reader String) :=
   [ ("flow.expv", flowExpv), ("flow.compose", flowCompose), ("flow.axes", flowAxesH), ("flow.exp", flowExpH),
-    ("flow.warp_image", flowWarpImage), ("flow.bch", flowBch) ]
+    ("flow.warp_image", flowWarpImage), ("flow.bch", flowBch), ("flow.normalize", flowNormalizeH) ]
 
 end Deepali.Drv
